@@ -289,7 +289,15 @@ def run(ctx):
         d, f = e2e_session(ctx.seed * 1000003 + i) if i % 4 else conn_limited_session(ctx.seed * 1000003 + i)
         descs.append(d)
         oracle_failures.extend(f)
-    dist = {"correspondence_cases": len(cases), "e2e_sessions": m}
+    # a streamed response that ends with trailers: all its DATA, in order, before the trailers' END_STREAM
+    from . import h2e2e as E2
+
+    ntr = ctx.scale(12, 150, 40)
+    for i in range(ntr):
+        d, f = E2.trailers_case(ctx.seed * 6133 + i)
+        for what, sig in f:
+            oracle_failures.append({"case": d, "what": what, "signature": "c09:" + sig})
+    dist = {"correspondence_cases": len(cases), "e2e_sessions": m, "trailers_sessions": ntr}
     for k in ("open", "win", "connwin", "iw", "reset", "eof", "app", "send"):
         dist["step:" + k] = sum(s[k] for s in stats)
     for s in stats:
